@@ -1,5 +1,13 @@
-//! C38 (exploration stage): two/three cloned Database handles commit explicit transactions under
-//! the deterministic scheduler; the WAL file is inspected afterwards.
+//! C38 commit order: 2-3 cloned handles of a REAL `Database` (WAL on) run explicit transactions
+//! (BEGIN; UPDATE ...; COMMIT) under the deterministic scheduler; the WAL files are read after every
+//! step.  Each table is kept on one data page; every UPDATE writes its own row with its own 8-byte
+//! marker, so the set of markers found in a WAL frame tells which updates the logged page image
+//! contains.  Scheduling sites: the real ones of execute_small_commit / group_commit.rs
+//! (401, 301, 302, 402, 304, 403, 305, 306) plus the harness's own site 400 between the last
+//! UPDATE and COMMIT; every other site (page locks 201-204, ...) is passed through at once.
+//!
+//!   gen    cases = (programs, schedule, everything observed) for coq/Corr/C38.v
+//!   search the property's oracle only (no model), random schedules, prints FAIL lines
 use std::path::{Path, PathBuf};
 use std::sync::{Arc, Mutex};
 use std::time::{Duration, Instant};
@@ -9,100 +17,551 @@ use tvh::*;
 
 const PAGE: usize = 16384;
 const FRAME: usize = 32 + PAGE;
+const MAX_UPD: usize = 12;
 
-fn marker(t: usize, i: usize) -> i64 { 0x5A5A_0000_0000_0000u64 as i64 + ((t as i64 + 1) << 16) + (i as i64 + 1) }
+/// a write: (table 1|2, update id)
+type Write = (u32, u32);
+type Txn = Vec<Write>;
 
-/// frames of the WAL directory in write order: (file_id, page_no, set of markers present)
-fn read_wal(dir: &Path, markers: &[(usize, usize)]) -> Vec<(u64, u32, Vec<(usize, usize)>)> {
+fn marker(u: u32) -> i64 { (0x5A3C_0000_7E00_0000u64 + ((u as u64 + 1) << 8) + 0xA5) as i64 }
+
+struct Frame { file_id: u64, image: u64 }
+
+/// frames of the WAL directory in write order, with the set of markers present in each image
+fn read_wal(dir: &Path, skip: usize) -> Vec<Frame> {
     let mut segs: Vec<PathBuf> = std::fs::read_dir(dir).map(|rd| rd.filter_map(|e| e.ok().map(|e| e.path()))
         .filter(|p| p.file_name().map(|n| n.to_string_lossy().starts_with("wal.")).unwrap_or(false)).collect()).unwrap_or_default();
     segs.sort();
     let mut out = vec![];
+    let mut idx = 0usize;
     for s in segs {
         let b = std::fs::read(&s).unwrap_or_default();
         let mut off = 0;
         while off + FRAME <= b.len() {
-            let file_id = u64::from_le_bytes(b[off..off + 8].try_into().unwrap());
-            let page_no = u32::from_le_bytes(b[off + 8..off + 12].try_into().unwrap());
-            let img = &b[off + 32..off + FRAME];
-            let mut present = vec![];
-            for &(t, i) in markers {
-                let m = marker(t, i);
-                let le = m.to_le_bytes();
-                let be = m.to_be_bytes();
-                if img.windows(8).any(|w| w == le || w == be) { present.push((t, i)); }
+            if idx >= skip {
+                let file_id = u64::from_le_bytes(b[off..off + 8].try_into().unwrap());
+                let img = &b[off + 32..off + FRAME];
+                let mut mask = 0u64;
+                for u in 0..MAX_UPD as u32 {
+                    let m = marker(u);
+                    let (le, be) = (m.to_le_bytes(), m.to_be_bytes());
+                    if img.windows(8).any(|w| w == le || w == be) { mask |= 1 << u; }
+                }
+                out.push(Frame { file_id, image: mask });
             }
-            out.push((file_id, page_no, present));
+            idx += 1;
             off += FRAME;
         }
     }
     out
 }
+fn wal_frame_count(dir: &Path) -> usize {
+    std::fs::read_dir(dir).map(|rd| rd.filter_map(|e| e.ok()).filter(|e| e.file_name().to_string_lossy().starts_with("wal."))
+        .map(|e| e.metadata().map(|m| m.len() as usize / FRAME).unwrap_or(0)).sum()).unwrap_or(0)
+}
 
 fn interesting(site: u32) -> bool { matches!(site, 301 | 302 | 304 | 305 | 306 | 400 | 401 | 402 | 403) }
 
-fn main() {
-    let a = Args::parse();
-    let base = std::env::temp_dir().join(format!("c38-{}", std::process::id()));
+#[derive(Clone, Debug, Default)]
+struct Obs {
+    sched: Vec<usize>,
+    /// per step: outcome, statuses, frames in the WAL (beyond the baseline)
+    steps: Vec<(i64, Vec<i64>, usize)>,
+    /// (table 1|2 or 0 = unknown file, image mask)
+    frames: Vec<(u32, u64)>,
+    /// per thread, per transaction: (number, 1 = COMMIT returned Ok, frames in the WAL at the return)
+    results: Vec<Vec<(u32, u32, usize)>>,
+    drained: bool,
+    avail: Vec<Vec<usize>>,
+    blocked_steps: usize,
+    preemptions: usize,
+    setup_error: Option<String>,
+}
+
+fn status_code(s: TState) -> i64 {
+    match s { TState::NotStarted => -3, TState::AtSite(n) => n as i64, TState::Running => 1, TState::Finished => 2 }
+}
+
+#[derive(Clone, Copy)]
+enum Plan<'a> {
+    Fixed(&'a [usize]),
+    Preempt(&'a [(usize, usize)]),
+    Random(u64, u64),
+}
+
+static CASE_NO: std::sync::atomic::AtomicUsize = std::sync::atomic::AtomicUsize::new(0);
+
+fn run_case(progs: &[Vec<Txn>], plan: Plan) -> (Obs, bool) {
+    let mut last = None;
+    for _ in 0..5 {
+        let (o, flaky, suspect) = run_once(progs, plan);
+        if suspect { return (o, true); }
+        if !flaky { return (o, false); }
+        last = Some(o);
+        std::thread::sleep(Duration::from_millis(50));
+    }
+    (last.unwrap(), true)
+}
+
+fn run_once(progs: &[Vec<Txn>], plan: Plan) -> (Obs, bool, bool) {
+    let n = progs.len();
+    let mut o = Obs { results: vec![vec![]; n], ..Default::default() };
+    // ---- a fresh database: two tables, one data page each
+    let base = std::env::temp_dir().join(format!("c38-{}-{}", std::process::id(), CASE_NO.fetch_add(1, std::sync::atomic::Ordering::Relaxed)));
     let _ = std::fs::remove_dir_all(&base);
-    std::fs::create_dir_all(&base).unwrap();
     let path = base.join("db");
-    let db = Database::create(&path).expect("create");
-    db.execute("PRAGMA wal=ON").expect("wal");
-    db.execute("CREATE TABLE t (id INT PRIMARY KEY, v BIGINT)").expect("ddl");
-    for i in 1..=6 { db.execute(&format!("INSERT INTO t VALUES ({}, {})", i, i)).expect("ins"); }
+    let setup = (|| -> Result<Database, String> {
+        std::fs::create_dir_all(&base).map_err(|e| e.to_string())?;
+        let db = Database::create(&path).map_err(|e| format!("{:#}", e))?;
+        db.execute("PRAGMA wal=ON").map_err(|e| format!("{:#}", e))?;
+        for t in 1..=2 {
+            db.execute(&format!("CREATE TABLE t{} (id INT PRIMARY KEY, v BIGINT)", t)).map_err(|e| format!("{:#}", e))?;
+            for i in 1..=MAX_UPD { db.execute(&format!("INSERT INTO t{} VALUES ({}, {})", t, i, i)).map_err(|e| format!("{:#}", e))?; }
+        }
+        Ok(db)
+    })();
+    let db = match setup { Ok(d) => d, Err(e) => { o.setup_error = Some(e); let _ = std::fs::remove_dir_all(&base); return (o, false, true); } };
     let wal_dir = path.join("wal");
-    let all_markers: Vec<(usize, usize)> = (0..3).flat_map(|t| (0..3).map(move |i| (t, i))).collect();
-    let base_frames = read_wal(&wal_dir, &all_markers).len();
-    eprintln!("baseline frames: {}", base_frames);
-    // programs: thread t, txn i: update row (t*3+i+1)
-    let n = 2;
-    let sched_list: Vec<usize> = a.rest.iter().filter_map(|x| x.parse().ok()).collect();
+    // which WAL file id belongs to which table: order of first appearance in the set-up frames
+    let setup_frames = read_wal(&wal_dir, 0);
+    let baseline = setup_frames.len();
+    let mut file_ids: Vec<u64> = vec![];
+    for f in &setup_frames { if !file_ids.contains(&f.file_id) { file_ids.push(f.file_id); } }
+    let table_of = |fid: u64| -> u32 { file_ids.iter().position(|x| *x == fid).map(|i| i as u32 + 1).unwrap_or(0) };
+    let results: Vec<Arc<Mutex<Vec<(u32, u32, usize)>>>> = (0..n).map(|_| Arc::new(Mutex::new(vec![]))).collect();
     let s = Scheduler::new(n);
     s.install();
-    let results: Arc<Mutex<Vec<String>>> = Arc::new(Mutex::new(vec![]));
     let mut hs = vec![];
-    for id in 0..n {
+    for (id, prog) in progs.iter().cloned().enumerate() {
         let h = db.clone();
-        let res = Arc::clone(&results);
+        let res = Arc::clone(&results[id]);
+        let wd = wal_dir.clone();
         hs.push(s.spawn(id, move || {
-            for i in 0..1 {
-                let r1 = h.execute("BEGIN");
-                let r2 = h.execute(&format!("UPDATE t SET v = {} WHERE id = {}", marker(id, i), id * 3 + i + 1));
+            for (k0, txn) in prog.iter().enumerate() {
+                let mut ok = h.execute("BEGIN").is_ok();
+                for &(table, u) in txn {
+                    ok &= h.execute(&format!("UPDATE t{} SET v = {} WHERE id = {}", table, marker(u), u + 1)).is_ok();
+                }
                 turdb::verif_hooks::sched_point(400);
-                let r3 = h.execute("COMMIT");
-                res.lock().unwrap().push(format!("t{} txn{}: begin={:?} upd={:?} commit={:?}", id, i, r1.is_ok(), r2.as_ref().map(|_| ()).map_err(|e| format!("{:#}", e)), r3.as_ref().map(|_| ()).map_err(|e| format!("{:#}", e))));
+                ok &= h.execute("COMMIT").is_ok();
+                let nf = wal_frame_count(&wd).saturating_sub(baseline);
+                res.lock().unwrap().push((k0 as u32 + 1, ok as u32, nf));
             }
         }));
     }
     s.wait_all_started();
-    let step_to_interesting = |t: usize| -> String {
-        let t0 = Instant::now();
-        let mut trail = vec![];
+    let statuses = |s: &Scheduler| -> Vec<i64> { (0..n).map(|i| status_code(s.state(i))).collect() };
+    let runnable = |s: &Scheduler| -> Vec<usize> { (0..n).filter(|&i| matches!(s.state(i), TState::AtSite(_))).collect() };
+    let mut rng = Rng::new(match plan { Plan::Random(seed, _) => seed, _ => 0 });
+    let (mut cur, mut idx, mut stuck, mut flaky) = (0usize, 0usize, false, false);
+    let mut believed_blocked: Vec<usize> = vec![];
+    loop {
+        if believed_blocked.iter().any(|&b| s.state(b) != TState::Running) { flaky = true; }
+        let av = runnable(&s);
+        let fixed_left = match &plan { Plan::Fixed(l) => idx < l.len(), _ => false };
+        if av.is_empty() && !fixed_left {
+            if s.all_finished() { break; }
+            let t0 = Instant::now();
+            while runnable(&s).is_empty() && !s.all_finished() && t0.elapsed() < Duration::from_secs(3) { std::thread::sleep(Duration::from_micros(200)); }
+            if runnable(&s).is_empty() && !s.all_finished() { stuck = true; break; }
+            continue;
+        }
+        if idx >= 400 { stuck = !s.all_finished(); break; }
+        let policy = if av.contains(&cur) { cur } else { (1..=n).map(|d| (cur + d) % n).find(|u| av.contains(u)).unwrap_or(cur) };
+        let t = match &plan {
+            Plan::Fixed(l) => if idx < l.len() { l[idx] % n } else { policy },
+            Plan::Preempt(ps) => match ps.iter().find(|(p, _)| *p == idx) { Some((_, u)) => *u % n, None => policy },
+            Plan::Random(_, sw) => {
+                if rng.chance(1, 25) { rng.below(n as u64) as usize }
+                else if rng.chance(1, *sw) || !av.contains(&cur) { *rng.pick(&av) }
+                else { cur }
+            }
+        };
+        if t != cur && av.contains(&t) && matches!(s.state(cur), TState::AtSite(x) if x != 0) { o.preemptions += 1; }
+        o.avail.push(av.clone());
+        // one coarse step: run to the next INTERESTING site (other sites are passed through)
+        let mut before = s.state(t);
+        let mut out;
         loop {
-            let o = s.step(t);
-            match o {
-                StepOutcome::Reached(x) if !interesting(x) && t0.elapsed() < Duration::from_secs(5) => { trail.push(x); continue; }
-                other => return format!("{:?} (through {:?})", other, trail),
+            out = s.step(t);
+            if out == StepOutcome::Blocked {
+                let may_block = before == TState::AtSite(302);
+                let t0 = Instant::now();
+                let grace = if may_block { Duration::from_millis(90) } else { Duration::from_secs(8) };
+                while t0.elapsed() < grace {
+                    match s.state(t) {
+                        TState::AtSite(x) => { out = StepOutcome::Reached(x); break; }
+                        TState::Finished => { out = StepOutcome::Finished; break; }
+                        _ => std::thread::sleep(Duration::from_micros(200)),
+                    }
+                }
+            }
+            match out {
+                StepOutcome::Reached(x) if !interesting(x) => { before = TState::AtSite(x); continue; }
+                _ => break,
             }
         }
-    };
-    for &t in &sched_list {
-        let o = step_to_interesting(t);
-        let frames = read_wal(&wal_dir, &all_markers);
-        eprintln!("step t{} -> {}   wal+{} {:?}", t, o, frames.len() - base_frames, &frames[base_frames..]);
+        let code = match out {
+            StepOutcome::Reached(x) => x as i64,
+            StepOutcome::Finished => 2,
+            StepOutcome::Blocked => { o.blocked_steps += 1; believed_blocked.push(t); 1 }
+            StepOutcome::Skipped => 3,
+        };
+        if matches!(out, StepOutcome::Reached(306)) {
+            let t0 = Instant::now();
+            while (0..n).any(|i| s.state(i) == TState::Running) && t0.elapsed() < Duration::from_secs(5) { std::thread::sleep(Duration::from_micros(100)); }
+            believed_blocked.clear();
+        }
+        o.sched.push(t);
+        o.steps.push((code, statuses(&s), wal_frame_count(&wal_dir).saturating_sub(baseline)));
+        if matches!(out, StepOutcome::Reached(_) | StepOutcome::Finished | StepOutcome::Blocked) { cur = t; }
+        idx += 1;
     }
-    // drain
-    for _ in 0..200 {
-        if s.all_finished() { break; }
-        for t in 0..n { let _ = step_to_interesting(t); }
-    }
-    for h in hs { let _ = h.join(); }
+    o.drained = !stuck;
+    o.frames = read_wal(&wal_dir, baseline).iter().map(|f| (table_of(f.file_id), f.image)).collect();
+    for i in 0..n { o.results[i] = results[i].lock().unwrap().clone(); }
+    if !stuck { for h in hs { let _ = h.join(); } }
     Scheduler::uninstall();
-    let frames = read_wal(&wal_dir, &all_markers);
-    eprintln!("final wal+{} {:?}", frames.len() - base_frames, &frames[base_frames..]);
-    for r in results.lock().unwrap().iter() { eprintln!("{}", r); }
-    let rows = db.query("SELECT id, v FROM t ORDER BY id");
-    eprintln!("rows: {:?}", rows.map(|r| r.len()));
-    let _ = std::fs::remove_dir_all(&base);
+    if !stuck { drop(db); let _ = std::fs::remove_dir_all(&base); }
+    (o, flaky, stuck)
+}
+
+// ---------------------------------------------------------------- the property's oracle
+fn oracle(progs: &[Vec<Txn>], o: &Obs) -> Option<&'static str> {
+    if o.setup_error.is_some() { return Some("setup"); }
+    // order: the last frame of a page holds the newest image among the frames of that page
+    for (i, f) in o.frames.iter().enumerate() {
+        let last = o.frames.iter().rev().find(|g| g.0 == f.0).unwrap();
+        if f.1 & last.1 != f.1 { let _ = i; return Some("older_image_last"); }
+    }
+    // coverage: every write of an acknowledged transaction is in a frame that was in the log at the return
+    for (t, rs) in o.results.iter().enumerate() {
+        for &(k, ok, nf) in rs {
+            if ok == 1 {
+                for &(table, u) in &progs[t][k as usize - 1] {
+                    if !o.frames.iter().take(nf).any(|f| f.0 == table && f.1 & (1 << u) != 0) { return Some("ack_without_frame"); }
+                }
+            } else { return Some("commit_failed"); }
+        }
+    }
+    if !o.drained { return Some("stuck"); }
+    None
+}
+
+// ---------------------------------------------------------------- printing / parsing
+fn txn_str(x: &Txn) -> String { if x.is_empty() { "-".into() } else { x.iter().map(|(p, u)| format!("{}:{}", p, u)).collect::<Vec<_>>().join("+") } }
+fn replay_line(progs: &[Vec<Txn>], sched: &[usize]) -> String {
+    let mut s = format!("n={}", progs.len());
+    for (i, p) in progs.iter().enumerate() { s.push_str(&format!(" p{}={}", i, p.iter().map(txn_str).collect::<Vec<_>>().join(","))); }
+    s.push_str(&format!(" sched={}", sched.iter().map(|t| t.to_string()).collect::<Vec<_>>().join(",")));
+    s
+}
+fn parse_line(l: &str) -> Option<(Vec<Vec<Txn>>, Vec<usize>)> {
+    let mut progs: Vec<Vec<Txn>> = vec![];
+    let mut sched = vec![];
+    for tok in l.split_whitespace() {
+        if let Some(r) = tok.strip_prefix("sched=") {
+            sched = r.split(',').filter(|x| !x.is_empty()).filter_map(|x| x.parse().ok()).collect();
+        } else if tok.starts_with('p') && tok.contains('=') {
+            let r = tok.splitn(2, '=').nth(1).unwrap_or("");
+            let mut p = vec![];
+            for x in r.split(',').filter(|x| !x.is_empty()) {
+                let mut txn = vec![];
+                if x != "-" {
+                    for w in x.split('+') {
+                        let mut it = w.split(':');
+                        let table: u32 = it.next()?.parse().ok()?;
+                        let u: u32 = it.next()?.parse().ok()?;
+                        if !(1..=2).contains(&table) || u as usize >= MAX_UPD { return None; }
+                        txn.push((table, u));
+                    }
+                }
+                p.push(txn);
+            }
+            progs.push(p);
+        }
+    }
+    if progs.is_empty() || progs.len() > 3 || progs.iter().any(|p| p.is_empty()) { None } else { Some((progs, sched)) }
+}
+fn st4(x: i64) -> u64 {
+    match x { 0 => 0, 1 => 1, 2 => 2, 3 => 3, 301 => 4, 302 => 5, 304 => 6, 305 => 7, 306 => 8, 401 => 9, 402 => 10, 403 => 11, 400 => 14, _ => 15 }
+}
+/// compact encodings, see coq/Corr/C38.v
+fn case_term(progs: &[Vec<Txn>], o: &Obs) -> String {
+    let ps: Vec<String> = progs.iter().map(|p| clist(&p.iter().map(|x| clist(&x.iter().map(|(t, u)| (t * 16 + u).to_string()).collect::<Vec<_>>())).collect::<Vec<_>>())).collect();
+    let steps: Vec<String> = o.sched.iter().zip(o.steps.iter()).map(|(t, (c, st, nf))| {
+        let mut acc: u64 = 0;
+        for x in st.iter().rev() { acc = st4(*x) + 16 * acc; }
+        (*t as u64 + 4 * (st4(*c) + 16 * ((*nf).min(15) as u64 + 16 * acc))).to_string()
+    }).collect();
+    let frames: Vec<String> = o.frames.iter().map(|f| (f.0 as u64 * 4096 + f.1).to_string()).collect();
+    let res: Vec<String> = o.results.iter().map(|rs| clist(&rs.iter().map(|r| (r.0 as u64 + 8 * (r.1 as u64 + 2 * r.2 as u64)).to_string()).collect::<Vec<_>>())).collect();
+    format!("Case {} {} {} {} {}", clist(&ps), clist(&steps), clist(&frames), clist(&res), cbool(o.drained))
+}
+fn kind_of(base: &str, progs: &[Vec<Txn>], o: &Obs) -> String {
+    match oracle(progs, o) { Some(w) => format!("{}:{}", base, w), None => base.to_string() }
+}
+fn nontrivial(o: &Obs) -> bool { o.preemptions > 0 || o.blocked_steps > 0 }
+
+// ---------------------------------------------------------------- program sets
+fn enum_sets(thorough: bool) -> Vec<(Vec<Vec<Txn>>, usize)> {
+    let w = |t: u32, u: u32| -> Txn { vec![(t, u)] };
+    if !thorough {
+        vec![
+            (vec![vec![w(1, 0)], vec![w(1, 1)]], 2),
+            (vec![vec![w(1, 0)], vec![w(2, 1)]], 1),
+            (vec![vec![vec![(1, 0), (2, 1)]], vec![w(1, 2)]], 1),
+        ]
+    } else {
+        vec![
+            (vec![vec![w(1, 0)], vec![w(1, 1)]], 3),
+            (vec![vec![w(1, 0)], vec![w(2, 1)]], 2),
+            (vec![vec![vec![(1, 0), (2, 1)]], vec![w(1, 2)]], 2),
+            (vec![vec![w(1, 0), w(1, 1)], vec![w(1, 2)]], 2),
+            (vec![vec![w(1, 0)], vec![w(1, 1)], vec![w(2, 2)]], 1),
+        ]
+    }
+}
+fn random_progs(rng: &mut Rng) -> Vec<Vec<Txn>> {
+    let n = if rng.chance(2, 3) { 2 } else { 3 };
+    let mut next_u = 0u32;
+    (0..n).map(|_| {
+        let len = 1 + rng.below(2) as usize;
+        (0..len).map(|_| {
+            let nw = if rng.chance(1, 12) { 0 } else { 1 + rng.below(2) as usize };
+            (0..nw).filter_map(|_| { if (next_u as usize) < MAX_UPD { let u = next_u; next_u += 1; Some((1 + rng.below(2) as u32, u)) } else { None } }).collect()
+        }).collect()
+    }).collect()
+}
+
+fn main() {
+    let a = Args::parse();
+    match a.mode.as_str() {
+        "gen" => gen(&a),
+        "search" => search(&a),
+        "worker" => worker(&a),
+        _ => { eprintln!("c38: unknown mode"); std::process::exit(2); }
+    }
+}
+
+#[derive(Clone, Debug)]
+enum Task {
+    Enum { set: usize, bound: usize, modulus: usize, res: usize },
+    Random { seed: u64, count: usize },
+    Lines { file: String, from: usize, to: usize },
+}
+impl Task {
+    fn to_args(&self) -> Vec<String> {
+        match self {
+            Task::Enum { set, bound, modulus, res } => vec!["enum".into(), set.to_string(), bound.to_string(), modulus.to_string(), res.to_string()],
+            Task::Random { seed, count } => vec!["random".into(), seed.to_string(), count.to_string()],
+            Task::Lines { file, from, to } => vec!["lines".into(), file.clone(), from.to_string(), to.to_string()],
+        }
+    }
+    fn from_args(r: &[String]) -> Option<Task> {
+        let n = |i: usize| -> Option<u64> { r.get(i).and_then(|x| x.parse().ok()) };
+        match r.first().map(|x| x.as_str()) {
+            Some("enum") => Some(Task::Enum { set: n(1)? as usize, bound: n(2)? as usize, modulus: n(3)? as usize, res: n(4)? as usize }),
+            Some("random") => Some(Task::Random { seed: n(1)?, count: n(2)? as usize }),
+            Some("lines") => Some(Task::Lines { file: r.get(1)?.clone(), from: n(2)? as usize, to: n(3)? as usize }),
+            _ => None,
+        }
+    }
+}
+
+#[derive(Clone, Debug, Default)]
+struct Progress { started: bool, stack: Vec<Vec<(usize, usize)>>, rng: u64, done: usize, suspect_runs: usize }
+impl Progress {
+    fn save(&self, path: &Path) {
+        let st: Vec<String> = self.stack.iter().map(|d| d.iter().map(|(p, u)| format!("{}:{}", p, u)).collect::<Vec<_>>().join(",")).collect();
+        let _ = std::fs::write(path, format!("{}\n{}\n{}\n{}\n", self.rng, self.done, self.suspect_runs, st.join(";")));
+    }
+    fn load(path: &Path) -> Option<Progress> {
+        let txt = std::fs::read_to_string(path).ok()?;
+        let l: Vec<&str> = txt.split('\n').collect();
+        if l.len() < 4 { return None; }
+        let stack = if l[3].is_empty() { vec![] } else {
+            l[3].split(';').map(|d| d.split(',').filter(|x| !x.is_empty()).filter_map(|x| { let mut it = x.split(':'); Some((it.next()?.parse().ok()?, it.next()?.parse().ok()?)) }).collect()).collect()
+        };
+        Some(Progress { started: true, stack, rng: l[0].parse().ok()?, done: l[1].parse().ok()?, suspect_runs: l[2].parse().ok()? })
+    }
+}
+
+/// see c37.rs: exit code 17 = ended early after a suspect run (threads left behind), start me again
+fn worker(a: &Args) {
+    let task = Task::from_args(&a.rest).expect("worker task");
+    let state_path = PathBuf::from(format!("{}.state", a.out.display()));
+    let mut pr = Progress::load(&state_path).unwrap_or_default();
+    let mut out = String::new();
+    let flush = |out: &mut String| {
+        use std::io::Write as _;
+        if let Ok(mut f) = std::fs::OpenOptions::new().create(true).append(true).open(&a.out) { let _ = f.write_all(out.as_bytes()); }
+        out.clear();
+    };
+    let row = |progs: &[Vec<Txn>], o: &Obs, base: &str| -> String {
+        format!("{}\t{}\t{}\t{}\t{}\t{}\n", kind_of(base, progs, o), if nontrivial(o) { 1 } else { 0 }, o.blocked_steps,
+                oracle(progs, o).unwrap_or("ok"), replay_line(progs, &o.sched), case_term(progs, o))
+    };
+    let settle = |pr: &mut Progress, out: &mut String, progs: &[Vec<Txn>], o: &Obs, suspect: bool, base: &str| -> (bool, bool) {
+        if !suspect { pr.suspect_runs = 0; out.push_str(&row(progs, o, base)); return (true, true); }
+        pr.suspect_runs += 1;
+        if pr.suspect_runs >= 3 { pr.suspect_runs = 0; out.push_str(&row(progs, o, base)); return (true, false); }
+        (false, false)
+    };
+    match &task {
+        Task::Enum { set, bound, modulus, res } => {
+            let (progs, _) = enum_sets(a.thorough())[*set].clone();
+            if !pr.started { pr.stack = vec![vec![]]; pr.started = true; }
+            while let Some(d) = pr.stack.last().cloned() {
+                let (o, suspect) = run_case(&progs, Plan::Preempt(&d));
+                let emit = !d.is_empty() || *res == 0;
+                let (accepted, go_on) = if emit { settle(&mut pr, &mut out, &progs, &o, suspect, &format!("enum{}t", progs.len())) }
+                                        else if suspect { pr.suspect_runs += 1; (pr.suspect_runs >= 3, false) } else { (true, true) };
+                if accepted {
+                    pr.stack.pop();
+                    if d.len() < *bound && !suspect {
+                        let from = d.last().map(|x| x.0 + 1).unwrap_or(0);
+                        for i in from..o.sched.len() {
+                            if d.is_empty() && i % modulus != *res { continue; }
+                            for &u in &o.avail[i] {
+                                if u != o.sched[i] { let mut d2 = d.clone(); d2.push((i, u)); pr.stack.push(d2); }
+                            }
+                        }
+                    }
+                }
+                if !go_on { flush(&mut out); pr.save(&state_path); std::process::exit(17); }
+            }
+        }
+        Task::Random { seed, count } => {
+            if !pr.started { pr.rng = Rng::new(*seed).0; pr.started = true; }
+            while pr.done < *count {
+                let mut rng = Rng(pr.rng);
+                let progs = random_progs(&mut rng);
+                let plan_seed = rng.next();
+                let (o, suspect) = run_case(&progs, Plan::Random(plan_seed, 2 + (pr.done % 4) as u64));
+                let (accepted, go_on) = settle(&mut pr, &mut out, &progs, &o, suspect, &format!("random{}t", progs.len()));
+                if accepted { pr.rng = rng.0; pr.done += 1; }
+                if !go_on { flush(&mut out); pr.save(&state_path); std::process::exit(17); }
+            }
+        }
+        Task::Lines { file, from, to } => {
+            let lines: Vec<String> = std::fs::read_to_string(file).unwrap_or_default().lines().map(|l| l.trim().to_string()).filter(|l| !l.is_empty()).collect();
+            if !pr.started { pr.done = *from; pr.started = true; }
+            while pr.done < (*to).min(lines.len()) {
+                match parse_line(&lines[pr.done]) {
+                    Some((progs, sched)) => {
+                        let (o, suspect) = run_case(&progs, Plan::Fixed(&sched));
+                        let (accepted, go_on) = settle(&mut pr, &mut out, &progs, &o, suspect, "replay");
+                        if accepted { pr.done += 1; }
+                        if !go_on { flush(&mut out); pr.save(&state_path); std::process::exit(17); }
+                    }
+                    None => pr.done += 1,
+                }
+            }
+        }
+    }
+    flush(&mut out);
+    let _ = std::fs::remove_file(&state_path);
+}
+
+struct Row { kind: String, nontrivial: bool, blocked: usize, verdict: String, replay: String, term: String }
+
+fn run_tasks(a: &Args, tasks: &[Task], work_dir: &Path) -> (Vec<Row>, usize) {
+    let exe = std::env::current_exe().expect("current_exe");
+    let jobs: usize = std::env::var("C38_JOBS").ok().and_then(|x| x.parse().ok()).unwrap_or(12);
+    let _ = std::fs::remove_dir_all(work_dir);
+    std::fs::create_dir_all(work_dir).expect("work dir");
+    let mut running: Vec<(usize, std::process::Child, Instant, u32)> = vec![];
+    let mut queue: std::collections::VecDeque<(usize, u32)> = (0..tasks.len()).map(|i| (i, 0u32)).collect();
+    let (mut failed_tasks, mut restarts) = (0usize, 0usize);
+    let task_limit = Duration::from_secs(if a.thorough() { 1200 } else { 400 });
+    while !queue.is_empty() || !running.is_empty() {
+        while !queue.is_empty() && running.len() < jobs {
+            let (ti, attempt) = queue.pop_front().unwrap();
+            let out = work_dir.join(format!("t{:04}.tsv", ti));
+            let child = std::process::Command::new(&exe).arg("worker").arg("--tier").arg(&a.tier).arg("--out").arg(&out)
+                .args(tasks[ti].to_args()).spawn().expect("spawn worker");
+            running.push((ti, child, Instant::now(), attempt));
+        }
+        let mut i = 0;
+        let mut progressed = false;
+        while i < running.len() {
+            let over = running[i].2.elapsed() > task_limit;
+            match running[i].1.try_wait() {
+                Ok(Some(st)) => {
+                    let (ti, _, _, attempt) = running.remove(i);
+                    if st.code() == Some(17) && attempt < 40 { queue.push_back((ti, attempt + 1)); restarts += 1; }
+                    else if !st.success() { failed_tasks += 1; eprintln!("c38: worker for task {:?} failed ({:?})", tasks[ti], st.code()); }
+                    progressed = true;
+                }
+                _ if over => {
+                    let (ti, mut ch, _, _) = running.remove(i);
+                    let _ = ch.kill();
+                    let _ = ch.wait();
+                    eprintln!("c38: worker for task {:?} exceeded its time limit", tasks[ti]);
+                    failed_tasks += 1;
+                    progressed = true;
+                }
+                _ => i += 1,
+            }
+        }
+        if !progressed { std::thread::sleep(Duration::from_millis(20)); }
+    }
+    if failed_tasks > 0 { eprintln!("c38: {} worker(s) failed", failed_tasks); std::process::exit(3); }
+    let mut rows = vec![];
+    for i in 0..tasks.len() {
+        let txt = std::fs::read_to_string(work_dir.join(format!("t{:04}.tsv", i))).unwrap_or_default();
+        for l in txt.lines() {
+            let f: Vec<&str> = l.splitn(6, '\t').collect();
+            if f.len() != 6 { continue; }
+            rows.push(Row { kind: f[0].to_string(), nontrivial: f[1] == "1", blocked: f[2].parse().unwrap_or(0), verdict: f[3].to_string(), replay: f[4].to_string(), term: f[5].to_string() });
+        }
+    }
+    let _ = std::fs::remove_dir_all(work_dir);
+    (rows, restarts)
+}
+
+fn gen(a: &Args) {
+    let mut w = CaseWriter::new(&a.out, "C38", "Corr.C38", 400);
+    let t_start = Instant::now();
+    let mut tasks: Vec<Task> = vec![];
+    if let Some(lf) = &a.lines {
+        let n = a.replay_lines().map(|l| l.len()).unwrap_or(0);
+        let file = lf.display().to_string();
+        let mut from = 0;
+        while from < n { tasks.push(Task::Lines { file: file.clone(), from, to: (from + 10).min(n) }); from += 10; }
+    } else {
+        for (set, (_, bound)) in enum_sets(a.thorough()).iter().enumerate() {
+            let modulus = if *bound >= 3 { 8 } else if *bound == 2 { 4 } else { 2 };
+            for res in 0..modulus { tasks.push(Task::Enum { set, bound: *bound, modulus, res }); }
+        }
+        let mut rng = Rng::new(a.seed);
+        let (chunks, per) = if a.thorough() { (32, 60) } else { (8, 15) };
+        for _ in 0..chunks { tasks.push(Task::Random { seed: rng.next(), count: per }); }
+    }
+    let (rows, restarts) = run_tasks(a, &tasks, &a.out.join("work"));
+    let mut blocked_total = 0usize;
+    for r in rows {
+        blocked_total += r.blocked;
+        w.push(r.term, r.replay, r.nontrivial, &r.kind);
+    }
+    let wall = t_start.elapsed().as_secs_f64();
+    w.finish(&[("blocked_steps".into(), blocked_total.to_string()), ("harness_wall_s".into(), format!("{:.1}", wall)),
+               ("worker_tasks".into(), tasks.len().to_string()), ("worker_restarts".into(), restarts.to_string())]);
+}
+
+fn search(a: &Args) {
+    let budget = a.budget.min(1_500) as usize;
+    let mut rng = Rng::new(a.seed ^ 0xC38C38);
+    let per = 50;
+    let tasks: Vec<Task> = (0..(budget + per - 1) / per).map(|_| Task::Random { seed: rng.next(), count: per }).collect();
+    let work = PathBuf::from(format!("{}.work", a.out.display()));
+    let (rows, _) = run_tasks(a, &tasks, &work);
+    let mut s = String::new();
+    let mut nf = 0;
+    for r in &rows {
+        if r.verdict != "ok" && nf < 20 { s.push_str(&format!("FAIL {} why={}\n", r.replay, r.verdict)); nf += 1; }
+    }
+    s.push_str(&format!("tried={}\n", rows.len()));
+    std::fs::write(&a.out, s).expect("write search output");
 }
